@@ -47,6 +47,8 @@ enum Op {
 const UNITS: &[&str] = &["g", "min", "ml", "kg", "tsp", "h", "cup", "lb", "nope", "°C", "s", "l"];
 const QUANTS: &[(f64, &str)] = &[(250.0, "g"), (1.5, "l"), (2.0, "cup"), (12.0, "oz"), (90.0, "min"), (3.0, "tsp")];
 const UNIT_INPUTS: &[&str] = &[
+    ">> time: 1 hour 30 min\n>> prep time: 20 minutes\nBoil @water{1%l} for ~{10%min}.\n",
+    ">> cook time: 2 hours\n>> servings: 2\nBake ~{1%h}. Heat to 180 °C.\n",
     "Boil @water{1%l} for ~{10%min} then add @&water{200%ml}.\n",
     "Mix @flour{200%g} and @&flour{1%kg}, rest ~{1%h}, bake ~{30%min}.\n",
     "@butter{2%tbsp} @&butter{1%tsp} ~{45%s} @sugar{1%cup} @&sugar{100%g}\n",
@@ -119,7 +121,10 @@ fn main() {
         if conv {
             // many short operations on the shared converter: contention on whatever it
             // shares behind `&self`
-            for k in 0..14 {
+            // the first real operation of every thread is a parse that exercises whatever the
+            // converter builds lazily on first use (time units, unit lookups), on a cold converter
+            ops.push(Op::UnitParse((mix(seed, 2900 + t as u64) % 3) as usize));
+            for k in 0..12 {
                 let r = mix(seed, 3000 + (t * 32 + k) as u64);
                 ops.push(match r % 8 {
                     0..=4 => Op::FindUnit(((r >> 8) % UNITS.len() as u64) as usize),
